@@ -765,7 +765,7 @@ class SshHostCertificateV00Base(ParsableBase, SshCertificateBase):  # pylint: di
         converter=SshCertValidPrincipals,
         validator=attr.validators.instance_of(SshCertValidPrincipals)
     )
-    valid_after = attr.ib(validator=attr.validators.instance_of(datetime.datetime))
+    valid_after = attr.ib(validator=attr.validators.optional(attr.validators.instance_of(datetime.datetime)))
     valid_before = attr.ib(validator=attr.validators.optional(attr.validators.instance_of(datetime.datetime)))
     constraints = attr.ib(
         converter=SshCertConstraintVector,
@@ -929,7 +929,7 @@ class SshHostCertificateV01Base(ParsableBase, SshCertificateBase):  # pylint: di
         converter=SshCertValidPrincipals,
         validator=attr.validators.instance_of(SshCertValidPrincipals)
     )
-    valid_after = attr.ib(validator=attr.validators.instance_of(datetime.datetime))
+    valid_after = attr.ib(validator=attr.validators.optional(attr.validators.instance_of(datetime.datetime)))
     valid_before = attr.ib(validator=attr.validators.optional(attr.validators.instance_of(datetime.datetime)))
     critical_options = attr.ib(
         converter=SshCertCriticalOptionVector,
